@@ -301,8 +301,8 @@ def one_case(ctx, prog, sspec=None, tag="__none__", label="gen"):
     has_arith = has_kind(comp, ("arith", "modif"))
     has_array = has_kind(comp, ("array",))
     has_fixed_component = any(isinstance(m, af.Model) and m.prior_count == 0 for m in c03.reachable_models(model))
-    reload_cls = ("C07-reload-arith-names" if has_arith else "C07-reload-array-dropped" if has_array else
-                  "C07-reload-fixed-component" if has_fixed_component else "C07-unstable-reload-json")
+    reload_cls = ("C07-reload-arith-names" if has_arith else "C07-reload-fixed-component" if has_fixed_component else
+                  "C07-reload-array-dropped" if has_array else "C07-unstable-reload-json")
     try:
         d = json.loads(json.dumps(model.dict()))
         m4 = af.AbstractPriorModel.from_dict(d)
